@@ -368,7 +368,7 @@ func TestC19(t *testing.T) {
 			n++
 		}
 	}
-	roundSet := []int{1, 2, 3, 5, 8, 16}
+	roundSet := []int{1, 2, 3, 4, 5, 6, 7, 8, 9, 10, 11, 12, 13, 14, 15, 16, 24, 32}
 	if ev.Thorough() {
 		roundSet = nil
 		for r := 1; r <= 32; r++ {
@@ -384,8 +384,8 @@ func TestC19(t *testing.T) {
 		if err := c19Check(a); err != nil {
 			fatal(err)
 		}
-		c.Case(true, fmt.Sprintf("sweep|r%d", r), "sweep:rounds")
+		c.Case(true, fmt.Sprintf("sweep|r%d", r), "sweep:rounds", fmt.Sprintf("field:rounds=%d", r))
 		n++
 	}
-	c.Exhaustive("keyLen 1..72 (thorough: 1..200) x rounds 1 (2 at block boundaries; thorough: all); rounds {1,2,3,5,8,16} (thorough: 1..32) x one block; salt 2^20-1, 2^20, 2^20+1; keyLen 1023, 1024, 1025 (this shard)", n)
+	c.Exhaustive("keyLen 1..72 (thorough: 1..200) x rounds 1 (2 at block boundaries; thorough: all); rounds 1..16, 24, 32 (thorough: 1..32) x one block; salt 2^20-1, 2^20, 2^20+1; keyLen 1023, 1024, 1025 (this shard)", n)
 }
